@@ -153,13 +153,19 @@ static void run_case(const Case& c)
 				f8String w; t->encode(w);
 				payload = std::to_string(cnt) + " " + vh::hex(w);
 			} else if (op.compare(0, 6, "RAWDEC") == 0) {
-				const bool nochk = op.find(":nochk") != std::string::npos, perm = op.find(":perm") != std::string::npos;
-				f8String in(c.raw);
+				const bool nochk = op.find(":nochk") != std::string::npos, perm = op.find(":perm") != std::string::npos,
+					noreenc = op.find(":noreenc") != std::string::npos;
+				char *exact = new char[c.raw.size() + 1];	// exact-size heap copy: over-reads hit a red zone
+				memcpy(exact, c.raw.data(), c.raw.size());
+				f8String in(exact, c.raw.size());
+				delete[] exact;
+				if (in.size() < 16) in.reserve(16);	// leave the small-string buffer: reads before data() then hit a heap red zone
 				std::unique_ptr<Message> d(Message::factory(ctx, in, nochk, perm));
 				if (!d) { st = "null"; }
 				else {
 					payload = dump_msg(d.get());
 					printf("O %lld %s ok %s\n", c.n, op.c_str(), payload.c_str());
+					if (noreenc) continue;
 					f8String w2; d->encode(w2);
 					printf("O %lld %s-REENC ok %s\n", c.n, op.c_str(), vh::hex(w2).c_str());
 					continue;
